@@ -1,0 +1,10 @@
+//go:build verif
+
+package lexer
+
+import "ti/lexer/reader"
+
+// VerifReader gives the verification driver access to the embedded reader.
+func (l *Lexer) VerifReader() *reader.LexerReader {
+	return &l.reader
+}
